@@ -361,7 +361,7 @@ func checkC08(c *Ctx) {
 	c08conic(c)
 	c.Floor("C08.R5", 3)
 	c.Floor("C08.R1", 14)
-	c.Floor("C08.R2", 5)
+	c.Floor("C08.R2", 6)
 	c.Floor("C08.R3", 8)
 	c.Floor("C08.R4", 6)
 }
@@ -548,6 +548,61 @@ func c08mirror(c *Ctx) {
 		return true
 	})
 	sort.Slice(stages, func(i, j int) bool { return stages[i].pos < stages[j].pos })
+	// one reference per side: every source-side stage of the closure reads its parameters from
+	// the same *SR variable (the reference the coordinates are currently expressed in)
+	{
+		users := map[types.Object][]string{}
+		var firstPos = map[types.Object]token.Pos{}
+		var skip []ast.Node
+		ast.Inspect(lit.Body, func(n ast.Node) bool {
+			if call, ok := n.(*ast.CallExpr); ok {
+				if f := callee(info, call); f != nil && c.P.Decl(f) != nil {
+					sig := f.Type().(*types.Signature)
+					// the WGS84 hop and its test legitimately name the original reference
+					if f.Name() == "NewTransform" || (sig.Results().Len() == 1 && sig.Params().Len() == 2 && named(sig.Params().At(0).Type()) == srT && named(sig.Params().At(1).Type()) == srT) {
+						skip = append(skip, call)
+					}
+				}
+			}
+			return true
+		})
+		ast.Inspect(lit.Body, func(n ast.Node) bool {
+			for _, sk := range skip {
+				if n == sk {
+					return false
+				}
+			}
+			sel, ok := n.(*ast.SelectorExpr)
+			if !ok {
+				return true
+			}
+			if sideOf(sel.X) == "source" {
+				o := objOf(info, sel.X)
+				users[o] = append(users[o], sel.Sel.Name)
+				if _, ok := firstPos[o]; !ok {
+					firstPos[o] = sel.Pos()
+				}
+			}
+			return true
+		})
+		var objs []types.Object
+		for o := range users {
+			objs = append(objs, o)
+		}
+		sort.Slice(objs, func(i, j int) bool { return firstPos[objs[i]] < firstPos[objs[j]] })
+		switch len(objs) {
+		case 1:
+			c.OK("C08.R2", "proj.(*SR).NewTransform#source-reference", lit.Pos(), "every source-side stage reads `%s` (%d uses)", objs[0].Name(), len(users[objs[0]]))
+		case 0:
+			c.Unk("C08.R2", "proj.(*SR).NewTransform#source-reference", lit.Pos(), "no source-side parameter reads found in the closure")
+		default:
+			var parts []string
+			for _, o := range objs {
+				parts = append(parts, fmt.Sprintf("`%s` (declared at %s) for %v", o.Name(), c.P.Position(o.Pos()), users[o]))
+			}
+			c.Bad("C08.R2", "proj.(*SR).NewTransform#source-reference", firstPos[objs[1]], "the source-side stages take their parameters from different references: %s; after the hop through WGS84 the coordinates are WGS84 coordinates, so a stage that still reads the original reference applies that reference's parameter a second time", strings.Join(parts, "; "))
+		}
+	}
 	find := func(what, side string) []stage {
 		var out []stage
 		for _, s := range stages {
